@@ -10,6 +10,8 @@ the server is built with ``enable_describe=True`` and the in-process HTTP client
 """
 from __future__ import annotations
 
+import contextlib
+import io
 import json
 import logging
 import time
@@ -45,13 +47,17 @@ class Tap:
         self.prefix = getattr(inner, "prefix", "")
         self.posts: list[dict[str, Any]] = []
         self.count: Any = lambda: 0
+        self.stderr = io.StringIO()
 
     def post(self, url: str, *, content: bytes, headers: dict[str, str]) -> Any:
         from urllib.parse import urlparse
 
         n0 = len(interp.CALLS)
         r0 = self.count()
-        r = self._inner.post(url, content=content, headers=headers)
+        # Falcon prints the traceback of an unhandled exception to wsgi.errors (= sys.stderr at call time): keep it
+        self.stderr = io.StringIO()
+        with contextlib.redirect_stderr(self.stderr):
+            r = self._inner.post(url, content=content, headers=headers)
         hdrs = {k.lower(): v for k, v in dict(r.headers).items()}
         self.posts.append(
             {
